@@ -22,10 +22,14 @@ FRAGMENT = {
          'second affiliate / shared call letters or none, a third of the station switches go to an affiliate (same name, other call letters); 60% strict 625-line runs, '
          '15% 625-line runs with dropped frames (from a gap on the oracle is relaxed to fidelity + debounce + memory safety + "old pages gone after a real change" '
          'until the suspected channel switch is visibly over: executed by the decoder, or a change between identified stations confirmed; then strict again), '
-         '25% 525-line XDS runs; half of the runs change the handler population (slot 0 always keeps NETWORK | NETWORK_ID | TTX_PAGE); '
-         'non-trivial = at least one accepted NETWORK event and at least 20 receptions; distinct = distinct event-log hash',
+         '25% 525-line XDS runs; half of the runs change the handler population: 20% with a complete observer in slot 0 (always NETWORK | NETWORK_ID | TTX_PAGE) '
+         'plus clients that come and go, 30% with specialised clients only (one or two event types each; NETWORK / NETWORK_ID / TTX_PAGE listeners come and go; in '
+         'a third of these nobody ever listens to NETWORK / NETWORK_ID; 525-line runs keep one NETWORK listener); uncorrectable Hamming faults hit every protected '
+         'byte of 8/30 format 1 (designation, initial page) and format 2 (designation, initial page, 13 PDC bytes) with equal probability; '
+         'non-trivial = at least 20 receptions and (at least one accepted NETWORK event or at least 5 evaluated events); distinct = distinct event-log hash',
  'fault_kinds': ['fault_vps_cni', 'fault_8301_cni', 'fault_8302_cni', 'fault_vps_pil', 'fault_8302_pil', 'fault_8301_time', 'fault_drop',
-                 'fault_ham1', 'fault_ham2', 'fault_wss_word', 'fault_wss_parity', 'fault_gap', 'fault_retune', 'fault_handler_change',
+                 'fault_ham1', 'fault_ham2', 'fault_wss_word', 'fault_wss_parity', 'fault_gap', 'fault_retune', 'fault_handler_change', 'fault_8301_ham1', 'fault_8301_ham2', 'fault_8301_time_offset',
+                 'fault_ham2_designation', 'fault_ham2_initial_page', 'fault_ham2_lci_luf_prf', 'fault_ham2_cni_byte', 'fault_ham2_other_pdc_byte',
                  'fault_xds_deviate', 'fault_xds_parity', 'fault_xds_checksum', 'fault_xds_drop'],
  'components': {'real': ['src/vbi.c', 'src/packet.c', 'src/wss.c', 'src/caption.c', 'src/tables.c', 'src/network-table.h', 'src/packet-830.c',
                          'src/vps.c', 'src/cache.c', 'src/event.c', 'src/hamm.c'],
@@ -54,6 +58,14 @@ FRAGMENT = {
                  '"not announced again" (ASPECT, and the aspect carried by PROG_INFO) is demanded while at least one handler that received the announcement has kept '
                  'that event type registered ever since; without such a witness a fresh announcement is accepted (not demanded); with no ASPECT handler PROG_INFO '
                  'from a WSS line is held to the aspect fidelity / debounce clauses',
+                 'station clauses that demand events or a cache content (exactly one NETWORK event per change, NETWORK before NETWORK_ID, pages kept / dropped, '
+                 'PROG_INFO repeat, aspect liveness) apply while a handler that has listened to NETWORK since the last NETWORK event (or the start) exists; without one '
+                 'the decoder identifies stations and resets its cache unobserved (VPS and XDS are decoded whatever handlers exist): pages count as "may be cached", '
+                 'a confirmed non-table identifier may have revoked the station unobserved; fidelity, debounce, from-invalid and quiescence clauses of the observable '
+                 'events stay on; when NETWORK / NETWORK_ID are enabled afresh (nobody listened before) every carrier counts as revoked',
+                 'an 8/30 packet with an uncorrectable byte outside the fields an event is read from (initial page; format 2 for NETWORK / NETWORK_ID: a PDC byte that '
+                 'carries no CNI bit) is undecided: a receiver may use or discard it, the debounce clause is evaluated over both readings; uncorrectable designation, or '
+                 'an uncorrectable byte the event is read from (PROG_ID: any of the 13 PDC bytes): no event may come from the packet',
                  'one event = its delivery to the lowest-numbered subscribed handler (which handlers receive it is C11); handler masks change between frames only',
                  'corrupted words never produce CNI 0 and never 0x0DC3 on 8/30-2; WSS subtitle code 11 (reserved) is not transmitted']}
 }
